@@ -124,6 +124,17 @@ func (c *Code) Global(index int) *Symbol {
 	return c.symbols.Root().Symbol(uint16(index))
 }
 
+// GlobalIndex returns the index of the variable with the given name in the
+// top-level scope. Variables declared in nested blocks of the top level occupy
+// global slots as well, but only top-level names are found here.
+func (c *Code) GlobalIndex(name string) (int, bool) {
+	s, ok := c.symbols.Root().Get(name)
+	if !ok {
+		return 0, false
+	}
+	return int(s.Index()), true
+}
+
 func (c *Code) GlobalNames() []string {
 	root := c.symbols.Root()
 	count := root.Count()
